@@ -10,7 +10,7 @@ EXPLANATION = ('Static rules: I1 RepeatTask counts seq only by +1, only after th
                'iteration re-arms a fresh new_timer(self.interval) that replaces it (one period between ticks, never earlier however late '
                'the executor runs); I3 the stream drivers relay Some(v) as next, end with take()+complete (or error) and Ready, and '
                'construct Pending only by propagating the inner poll; the one-shot task functions have their documented shape (C03.S1) and '
-               'the _at forms convert the deadline in the right direction (C07.T2). Does not decide wall/virtual time ("exactly one '
+               'the _at forms convert the deadline in the right direction (C07.T2). I4 timer and interval start their clock at subscription: the plain constructors do not read the clock (same rule as C13.Z1), the _at forms compute deadline - now forwards (same rule as C07.T2). Does not decide wall/virtual time ("exactly one '
                'period"), clock jumps or poll orders: timing is delegated to the timer future, which is trusted.')
 ASSUMPTIONS = ['the timer future completes no earlier than its duration']
 
@@ -23,7 +23,23 @@ def _is_pending(e):
 
 
 def check(cx):
-    return i12(cx) + ([] if cx.control else i3(cx))
+    return i12(cx) + ([] if cx.control else i3(cx) + i4(cx))
+
+
+def i4(cx):
+    """timer/interval count their time from subscription: the plain forms do not read the clock while the pipeline is built
+    (same rule as C13.Z1) and the _at forms wait for deadline - now, computed forwards (same rule as C07.T2)"""
+    from . import c13, c07
+    out = []
+    for f in c13.z1(cx):
+        if f.key.startswith(('observable::timer::', 'observable::interval::')):
+            out.append(Finding(ID, 'I4', f.key, f.ok, f.msg, f.loc, f.witness))
+    for f in c07.t2(cx):
+        if 'observable::timer::' in f.key or 'observable::interval::' in f.key:
+            out.append(Finding(ID, 'I4', f.key + '|deadline', f.ok, f.msg, f.loc, f.witness))
+    if len(out) < 4:
+        out.append(Finding(ID, 'I4', 'floor', False, 'expected the timer/interval constructors, found %d' % len(out)))
+    return out
 
 
 def i12(cx):
